@@ -14,9 +14,57 @@ import (
 
 type (
 	Locker = sync.Locker
-	Pool   = sync.Pool
 	Cond   = sync.Cond
 )
+
+// Pool is a deterministic sync.Pool: a LIFO stack with scheduling points and no random dropping (the real pool
+// drops and steals at the runtime's whim, and under the race detector on purpose at random; every behaviour of
+// this one is a legal behaviour of the real one, and it is the one that reuses objects as eagerly as possible).
+// The stack is guarded by a real mutex, which gives ThreadSanitizer the Put -> Get edge the real pool has.
+type Pool struct {
+	New   func() any
+	mu    sync.Mutex
+	items []any
+	known bool
+}
+
+//go:norace
+func (p *Pool) EnabledFor(string) bool { return true }
+
+//go:norace
+func (p *Pool) prepare() {
+	if !p.known {
+		p.known = true
+		RegisterReset(func() { p.known = false; p.items = nil })
+	}
+}
+
+func (p *Pool) Get() any {
+	sched.Point("pool.get", p)
+	p.prepare()
+	p.mu.Lock()
+	var x any
+	if n := len(p.items); n > 0 {
+		x = p.items[n-1]
+		p.items = p.items[:n-1]
+	}
+	p.mu.Unlock()
+	if x == nil && p.New != nil {
+		x = p.New()
+	}
+	return x
+}
+
+func (p *Pool) Put(x any) {
+	if x == nil {
+		return
+	}
+	sched.Point("pool.put", p)
+	p.prepare()
+	p.mu.Lock()
+	p.items = append(p.items, x)
+	p.mu.Unlock()
+}
 
 func NewCond(l Locker) *Cond { return sync.NewCond(l) }
 
